@@ -37,8 +37,25 @@ def configs(tier, seed):
         cfgs.append(dict(n=n, k=rnd.randint(1 if action == "signal" else 0, n), action=action, others=rnd.randint(0, 4), ostate=rnd.choice(ostates),
                          load=rnd.choice(["idle", "busy"]), clock=rnd.choice(["system", "tsc"]), sig=sig, cycles=rnd.randint(1, 5) if action == "cycles" else 0,
                          victim=rnd.choice(["main", "thread"]) if action != "return" else "main"))
+    # the victim's thread context is registered BEFORE the other threads' contexts (they are idle / parked at the action)
+    for k in range(0, N + 1):
+        for action, extra2 in [("stop", {}), ("exit", {}), ("return", {}), ("cycles", {"cycles": 2})]:
+            for others, ostate in [(1, "parked"), (3, "parked"), (2, "finished")] + ([(2, "alive")] if action in ("stop", "cycles") else []):
+                for load in ("idle", "busy"):
+                    c = dict(n=N, k=k, action=action, others=others, ostate=ostate, load=load, clock="system", sig=0, cycles=0, victim="main", prealloc=1)
+                    c.update(extra2)
+                    cfgs.append(c)
+    # a second thread receives the same fatal signal while the first one's handler is still flushing
+    for k in range(1, N + 1):
+        for sig in FATAL:
+            for ms in (1, 10, 40):
+                for load in ("idle", "busy"):
+                    cfgs.append(dict(n=N, k=k, action="signal", others=0, ostate="finished", load=load, clock="system", sig=int(sig), cycles=0,
+                                     victim="main" if k % 2 else "thread", second_fault_ms=ms))
     for c in cfgs:
         c.setdefault("big", 0)
+        c.setdefault("prealloc", 0)
+        c.setdefault("second_fault_ms", 0)
     # the last statement before the action is larger than the current queue buffer (fresh buffer, old one drained)
     for k in range(1, N + 1):
         for action, extra2 in [("stop", {}), ("exit", {}), ("return", {}), ("cycles", {"cycles": 2}), ("signal", {"sig": int(signal.SIGSEGV)}), ("signal", {"sig": int(signal.SIGTERM)})]:
@@ -46,6 +63,10 @@ def configs(tier, seed):
                 c = dict(n=N, k=k, action=action, others=0, ostate="finished", load=load, clock="system", sig=0, cycles=0, victim="main", big=1)
                 c.update(extra2)
                 cfgs.append(c)
+    for c in cfgs:
+        c.setdefault("big", 0)
+        c.setdefault("prealloc", 0)
+        c.setdefault("second_fault_ms", 0)
     return cfgs
 
 
@@ -126,7 +147,7 @@ def judge(c, rc, timed_out, d):
 def run_child(exe, c, d):
     os.makedirs(d, exist_ok=True)
     args = [exe, "--dir", d]
-    for k in ("n", "k", "action", "others", "ostate", "load", "clock", "sig", "cycles", "victim", "big"):
+    for k in ("n", "k", "action", "others", "ostate", "load", "clock", "sig", "cycles", "victim", "big", "prealloc", "second_fault_ms"):
         args += ["--" + k, str(c[k])]
 
     def pre():
@@ -171,7 +192,7 @@ def run(tier, seed):
         b = col.builds.setdefault(variant, {"processes": 0, "sanitizer_or_crash_reports": 0})
         b["processes"] += 1
         if reached:
-            tuples.add((c["action"], c["k"], c["sig"], c["clock"], c["load"], c["others"], c["ostate"], c["victim"], c["cycles"], c["n"], c["big"]))
+            tuples.add((c["action"], c["k"], c["sig"], c["clock"], c["load"], c["others"], c["ostate"], c["victim"], c["cycles"], c["n"], c["big"], c["prealloc"], c["second_fault_ms"]))
             statements += (c["k"] if c["action"] != "cycles" else c["n"]) + (150 if c["load"] == "busy" else 0)
         if key:
             w = dict(wit)
